@@ -111,3 +111,37 @@ func lossyEmission(c *cx, id string, in func(f *eng.Fn) bool) int {
 	}
 	return n
 }
+
+// c19BlankLines (C19.13): a text-multi value is written one <value/> per line,
+// so an empty string in the value list is a blank line of the text. The
+// encoder's "skip empty values" shortcut must not apply to that type: every
+// edge that leaves an iteration of the value loop because the value is empty
+// also establishes that the field is not text-multi.
+func c19BlankLines(c *cx, id string) {
+	f := c.fn(id, "form", "(*field).TokenReader")
+	if f == nil {
+		return
+	}
+	g := f.Graph()
+	n := 0
+	for _, ce := range g.EdgesMatching(`eq(rangeval(recv.value),"")`) {
+		n++
+		has := false
+		for _, a := range ce.Atoms {
+			if a.S == "!eq(recv.typ,form.TypeTextMulti)" {
+				has = true
+			}
+		}
+		if !has {
+			// or dominated by it already
+			src := eng.Point{B: ce.E.B, I: len(g.Blocks[ce.E.B].Nodes)}
+			has, _ = g.Dominated(src, "!eq(recv.typ,form.TypeTextMulti)")
+		}
+		pos := f.Pos()
+		if nodes := g.Blocks[ce.E.B].Nodes; len(nodes) > 0 {
+			pos = nodes[len(nodes)-1].Pos()
+		}
+		c.r.Check(id, f, "empty value skipped", "G: an empty value is dropped only for field types other than text-multi (there it is a blank line of the text and must round-trip)", pos, has, "blank lines of a multi-line text are dropped by the encoder")
+	}
+	c.r.Floor(id, "empty-value tests in the field encoder", n, 1)
+}
